@@ -149,6 +149,12 @@ VS_ROT(manif::SO3<Sym>, 0)
 VS_ROT(manif::SE3<Sym>, 3)
 VS_ROT(manif::SE_2_3<Sym>, 3)
 VS_ROT(manif::SGal3<Sym>, 3)
+SCENARIO("explog") {
+  G X = sym_group<G>("x");
+  T t = X.log();
+  G Y = t.exp();
+  out("X", X.coeffs()); out("t", t.coeffs()); out("Y", Y.coeffs());
+}
 SCENARIO("logexp") {
   T t = sym_tangent<T>("t");
   G X = t.exp();
